@@ -62,8 +62,7 @@ def aChk (x : ACtx) (e : Env) (c : Chk) (p : APt) : Br :=
   | .intArg i => ⟨some (if x.m.derivs && !x.cst (i.val e) then p.setErr else p), some p.setErr⟩
   | .uintArg i => ⟨some (if x.m.derivs && !x.cst (i.val e) then p.setErr else p), some p.setErr⟩
   | .zeroFunc _ => ⟨some (if x.m.derivs then p.setErr else p), some p.setErr⟩
-  | .derivArg => ⟨some p, some p.setErr⟩
-  | .bessel => ⟨some (if x.m.derivs && !x.cst 0 then p.setErr else p), some p.setErr⟩
+  | .bessel _ => ⟨some (if x.m.derivs && !x.cst 0 then p.setErr else p), some p.setErr⟩
   | .coupling => ⟨some (if x.m.derivs && anyBelow x.n (fun i => !x.cst i) then p.setErr else p), some p.setErr⟩
 
 def APt.setLb (p : APt) (v : Nat) (b : Bool) : APt :=
